@@ -76,3 +76,7 @@ UNITS.append(f1('__gmpf_cmp_ui', 'cmp_ui', 'mpir_ui v;', ', v', [(r'if \(uexp > 
                                    havoc='{ long V_d = nondet_long (); __CPROVER_assume (0 <= V_d && V_d < V_n); up = u->_mp_d + V_d; usize = V_n - 1 - V_d; }',
                                    inv='(up >= u->_mp_d && __CPROVER_same_object (up, u->_mp_d) && usize == V_n - 1 - (up - u->_mp_d) && 0 <= usize && usize <= V_n - 1 && u->_mp_d[V_n - 1] != 0 && V_n == u->_mp_size && (gj < (up - u->_mp_d) ==> u->_mp_d[gj] == 0))',
                                    dec='usize + 1', after='g_hd = up - u->_mp_d;')})})))
+
+for u in UNITS:
+    if u['name'] == 'mpf_cmp_uv':
+        u['tier'] = 'thorough'          # mpf_cmp(x,x): 340 s; the distinct-operand run (in the quick tier) already takes 7 minutes
